@@ -2,7 +2,7 @@
     commit discipline of the current tree is the one the model is written from. *)
 From Coq Require Import String List Bool ZArith.
 Import ListNotations.
-Require Import Nib.C03.Model Nib.C03.Ref Nib.C03.Spec Nib.C03.Msg Nib.C03.Discipline Nib.C03.Proofs.
+Require Import Nib.C03.Model Nib.C03.Ref Nib.C03.Spec Nib.C03.Msg Nib.C03.Precompiles Nib.C03.Discipline Nib.C03.Proofs.
 Require Import Nib.Gen.C03Facts.
 Open Scope string_scope.
 
@@ -97,3 +97,13 @@ Theorem C03_messages_hold_for_current_tree :
   kwf (ms_blk (fst r)) /\ ms_ptr (fst r) = None.
 Proof. exact (messages_equal_reference c03_ante_rejects_fee_cap_below_base_fee). Qed.
 Print Assumptions C03_messages_hold_for_current_tree.
+
+(** InitPrecompiles fills the standard precompile addresses from exactly one upstream table, the London
+    one (vm.PrecompiledContractsBerlin): MODEXP is priced by EIP-2565 *)
+Theorem C03_facts_std_precompiles_london :
+  c03_std_precompile_tables = ["PrecompiledContractsBerlin"] /\
+  table_of_names c03_std_precompile_tables = Some Berlin /\
+  (forall blen elen mlen hb, match table_of_names c03_std_precompile_tables with
+                             | Some t => modexp_gas t blen elen mlen hb = modexp_gas Berlin blen elen mlen hb
+                             | None => False end).
+Proof. vm_compute. repeat split; reflexivity. Qed.
